@@ -57,8 +57,8 @@ REGISTRY: dict[str, dict] = {
              "version 3 on read. Non-trivial = a configuration the writer accepts, or a gate/pair case.",
     ),
     "C04": dict(
-        modules=["C04", "C04Bytes", "TranslatedDec"],
-        theorems=[T + "Translated.decode_iri_eq", T + "Translated.decode_literal_eq", T + "Translated.ingest_rows_eq", T + "C04_decoder_refines_spec", T + "C04_bytes_delimited", T + "C04_bytes_single"],
+        modules=["C04", "C04Bytes", "TranslatedDec", "TranslatedDStmt"],
+        theorems=[T + "Translated.decode_triple_eq", T + "Translated.decode_quad_eq", T + "Translated.modelDec_like", T + "Translated.decode_iri_eq", T + "Translated.decode_literal_eq", T + "Translated.ingest_rows_eq", T + "C04_decoder_refines_spec", T + "C04_bytes_delimited", T + "C04_bytes_single"],
         rule="PARSE: streams from the harness's independent reference encoder making arbitrary legal choices (random "
              "eviction victim, random IRI split point, explicit vs zero ids, early/redundant entries, repeats used or not, "
              "random frame cuts, empty frames, repeated options rows, metadata; physical types 1-3, versions 1-2, tables "
@@ -66,8 +66,8 @@ REGISTRY: dict[str, dict] = {
              "to_graph parsers vs that denotation; model parser vs real parser. Non-trivial = stream with ≥2 events.",
     ),
     "C16": dict(
-        modules=["C04", "C04Bytes", "TranslatedDec"],
-        theorems=[T + "Translated.decode_iri_eq", T + "Translated.decode_literal_eq", T + "Translated.ingest_rows_eq", T + "C16_rejects_at_offending_row", T + "C16_bad_header_rejected", T + "C16_frames"],
+        modules=["C04", "C04Bytes", "TranslatedDec", "TranslatedDStmt"],
+        theorems=[T + "Translated.decode_triple_eq", T + "Translated.decode_quad_eq", T + "Translated.modelDec_like", T + "Translated.decode_iri_eq", T + "Translated.decode_literal_eq", T + "Translated.ingest_rows_eq", T + "C16_rejects_at_offending_row", T + "C16_bad_header_rejected", T + "C16_frames"],
         rule="PARSE: valid reference-encoder streams with ONE injected violation per catalogued class at a random site "
              "(18 classes), confirmed invalid by the Lean referee (with the class it reports); real parse_jelly_flat must "
              "raise and what it yielded before must be the referee's denotation of the valid prefix. Non-trivial = every "
@@ -167,8 +167,8 @@ REGISTRY: dict[str, dict] = {
         assumptions=["the ContextVar carrying frame metadata is not modelled in Lean; that part of (b) is oracle-only"],
     ),
     "C01": dict(
-        modules=["C01", "C01Bytes", "C03", "C04", "C06", "C07", "TranslatedEnc", "TranslatedDec"],
-        theorems=[T + "Translated.decode_iri_eq", T + "Translated.decode_literal_eq", T + "Translated.ingest_rows_eq", T + "Translated.encode_iri_indices_eq", T + "Translated.encode_literal_eq", T + "C01_triples_bytes_delimited", T + "C01_triples_bytes_single", T + "C01_quads_bytes", T + "C01_graphs_bytes",
+        modules=["C01", "C01Bytes", "C03", "C04", "C06", "C07", "TranslatedEnc", "TranslatedDec", "TranslatedStmt", "TranslatedDStmt"],
+        theorems=[T + "Translated.decode_triple_eq", T + "Translated.decode_quad_eq", T + "Translated.modelDec_like", T + "Translated.encode_triple_eq", T + "Translated.encode_quad_eq", T + "Translated.decode_iri_eq", T + "Translated.decode_literal_eq", T + "Translated.ingest_rows_eq", T + "Translated.encode_iri_indices_eq", T + "Translated.encode_literal_eq", T + "C01_triples_bytes_delimited", T + "C01_triples_bytes_single", T + "C01_quads_bytes", T + "C01_graphs_bytes",
                   T + "written_rows_wireWF", T + "C01_triples_frames", T + "C01_quads_frames", T + "C01_graphs_frames", T + "C01_parseFrames_is_parseCore",
                   T + "C03_triples", T + "C03_quads", T + "C03_graphs", T + "C04_decoder_refines_spec", T + "C07_frames_eq_rows",
                   T + "C06_nothing_left_in_flow", T + "C06_rows_independent_of_flow"],
